@@ -75,6 +75,11 @@ def enc(shape: str, x):
                 return {"tag": "none", "v": []}
             if type(x) is int and abs(x) < 2**31:
                 return {"tag": "int", "v": x}
+        elif shape == "int_or_val":   # get(k, default, type=int): the converted value or the (str) default
+            if type(x) is int and abs(x) < 2**31:
+                return {"tag": "int", "v": x}
+            if type(x) is str:
+                return {"tag": "val", "v": _v(x)}
         elif shape == "bool":
             if type(x) is bool:
                 return {"tag": "bool", "v": x}
@@ -230,6 +235,16 @@ def _rd(o, n, r, k="", i=0, j=0):
     return {"o": o, "n": n, "k": cps(k), "i": i, "j": j, "r": r}
 
 
+def _typed_reads(idx, o, k):
+    """the type-converting variants of get / getlist (values failing the conversion are skipped / give the default)"""
+    return [
+        _rd(idx, "getlist_int", attempt("ints", lambda: o.getlist(k, type=int)), k),
+        _rd(idx, "getlist_str", attempt("list", lambda: o.getlist(k, type=str)), k),
+        _rd(idx, "get_int", attempt("int", lambda: o.get(k, type=int)), k),
+        _rd(idx, "get_int_default", attempt("int_or_val", lambda: o.get(k, DFLT, type=int)), k),
+    ]
+
+
 def reads(idx: int, kind: str, o, keys, conv: bool = True) -> list:
     """ALL public reads of one object (idx = its number in the trace); conv=False leaves out the
     type=int conversion reads (for sessions whose values are not plain digit / non-numeric strings)."""
@@ -259,8 +274,7 @@ def reads(idx: int, kind: str, o, keys, conv: bool = True) -> list:
                 _rd(idx, "contains", attempt("bool", lambda: k in o), k),
             ]
             if kind != "FileMultiDict" and conv:
-                out += [_rd(idx, "getlist_int", attempt("ints", lambda: o.getlist(k, type=int)), k),
-                        _rd(idx, "get_int", attempt("int", lambda: o.get(k, type=int)), k)]
+                out += _typed_reads(idx, o, k)
         return out
     if kind in ("Headers", "EnvironHeaders"):
         eh = kind == "EnvironHeaders"
@@ -285,14 +299,12 @@ def reads(idx: int, kind: str, o, keys, conv: bool = True) -> list:
                 _rd(idx, "getitem", attempt("val", lambda: o[k]), k),
                 _rd(idx, "contains", attempt("bool", lambda: k in o), k),
             ]
-            if not eh:
-                out += [
-                    _rd(idx, "get_all", attempt("list", lambda: o.get_all(k)), k),
-                    _rd(idx, "get_default", attempt("val", lambda: o.get(k, DFLT)), k),
-                ]
-                if conv:
-                    out += [_rd(idx, "getlist_int", attempt("ints", lambda: o.getlist(k, type=int)), k),
-                            _rd(idx, "get_int", attempt("int", lambda: o.get(k, type=int)), k)]
+            out += [
+                _rd(idx, "get_all", attempt("list", lambda: o.get_all(k)), k),
+                _rd(idx, "get_default", attempt("val", lambda: o.get(k, DFLT)), k),
+            ]
+            if conv:
+                out += _typed_reads(idx, o, k)
         if not eh:
             n = len(o)
             for i in range(-(n + 1), n + 1):
@@ -364,7 +376,9 @@ class Recorder:
     def _snapshot(self):
         s = []
         for n, (kind, o) in enumerate(zip(self.kinds, self.objs), 1):
-            s += reads(n, kind, o, self.keys)
+            # FileStorage values (named by filename in the trace) travel into copies and combined views:
+            # no type-conversion reads in a trace that has a FileMultiDict
+            s += reads(n, kind, o, self.keys, conv="FileMultiDict" not in self.kinds)
         for a in range(len(self.objs)):
             for b in range(a + 1, len(self.objs)):
                 # FileStorage values compare by identity (the trace names them by filename): no == probes in a
